@@ -70,6 +70,14 @@ def benign_table():
     return "\n".join(out)
 
 
+def asbuilt():
+    m = json.load(open(os.path.join(HERE, "MANIFEST.json")))
+    out = []
+    for c in m["checks"]:
+        out.append("* **%s** - %s" % (c["property_id"], c["level_claimed"]["text"]))
+    return "\n".join(out)
+
+
 def revert_table():
     rp = os.path.join(HERE, "mutants", "revert_results.json")
     if not os.path.exists(rp):
@@ -93,7 +101,7 @@ def notes():
 def main():
     p = os.path.join(HERE, "DESIGN.md")
     s = open(p, encoding="utf-8").read()
-    for key, fn in (("fixed-defects", fixed_table), ("mutants", mutant_table), ("seeded", seeded_table), ("notes", notes), ("reverts", revert_table), ("benign", benign_table)):
+    for key, fn in (("fixed-defects", fixed_table), ("mutants", mutant_table), ("seeded", seeded_table), ("notes", notes), ("reverts", revert_table), ("benign", benign_table), ("asbuilt", asbuilt)):
         pat = re.compile(r"(<!-- BEGIN GENERATED: %s -->\n).*?(<!-- END GENERATED: %s -->)" % (key, key), re.S)
         if not pat.search(s):
             print("marker for %s not found" % key)
